@@ -72,7 +72,7 @@ EstClauses ==
 FileClauses ==
    LET m == T.n
        a == MonoTie(m, T.ranks, T.values, T.flags)
-   IN [Completed |-> T.raised = "",
+   IN [Completed |-> T.raised = "" /\ m > 0,
        KnownRows |-> \A i \in 1..Len(T.ranks) : T.ranks[i] >= 1,
        OnePerPsm |-> C!OnePerPsm(m, T.values, T.flags) /\ Len(T.ranks) = m,
        InRange   |-> InRangeOf("pep", m, T.values, T.flags, T.scale),
